@@ -192,6 +192,29 @@ def run_generic(key):
             return viol(bad)
         outs.append(tol.digest(wl))
     if d is None:
+        for amp in (1e-7, 1e7):
+            xs = x * amp
+            ys = xs.sum(s, keepdims=True)
+            try:
+                psm_s = np.asarray(mm.phase_sensitive_mask(xs, source_axis=s))
+                irm_s = np.asarray(mm.ideal_ratio_mask(xs, source_axis=s))
+                iam_s = np.asarray(mm.ideal_amplitude_mask(xs, source_axis=s))
+            except Exception as e:  # noqa
+                return viol(f'mask raised {e!r} at signal level {amp}')
+            nzs = np.broadcast_to(np.abs(ys) > amp * 1e-3, xs.shape)
+            with np.errstate(all='ignore'):
+                icm_ref = xs / np.where(ys == 0, 1, ys)
+                asum = np.abs(xs).sum(s, keepdims=True)
+                irm_ref = np.abs(xs) / np.where(asum == 0, 1, asum)
+                iam_ref = np.abs(xs) / np.where(ys == 0, 1, np.abs(ys))
+            lim = 1e-8 + 4e-18 / (amp * 1e-3)     # the documented eps = 1e-18 acts on the magnitude
+            for name, got_, ref_ in (('phase_sensitive_mask', psm_s, icm_ref.real), ('ideal_ratio_mask', irm_s, irm_ref),
+                                     ('ideal_amplitude_mask', iam_s, iam_ref)):
+                sel = nzs if name != 'ideal_ratio_mask' else np.broadcast_to(asum > 0, xs.shape)
+                dev = np.abs(got_[sel] - ref_[sel])
+                if dev.size and (dev > lim * (1 + np.abs(ref_[sel]))).any():
+                    return viol(f'{name} at signal level {amp}: deviates {dev.max():.3e} from its definition '
+                                f'(allowed {lim:.1e} relative)')
         ssum = x.sum(s, keepdims=True)
         try:
             icm = np.asarray(mm.ideal_complex_mask(x, source_axis=s))
